@@ -12,6 +12,8 @@ import (
 	"fmt"
 	"io"
 	"math/rand"
+	"runtime"
+	"sync"
 
 	"github.com/RoaringBitmap/roaring/v2"
 )
@@ -485,6 +487,33 @@ func (c *chunkReader) Read(p []byte) (int, error) {
 	return n, nil
 }
 
+// yieldReader: a plain io.Reader (not a ByteInput) that yields the processor between reads, so that
+// concurrent decodes interleave inside the library's pooled reader adapters.
+type yieldReader struct {
+	b     []byte
+	pos   int
+	sizes []int
+	calls int
+}
+
+func (y *yieldReader) Read(p []byte) (int, error) {
+	runtime.Gosched()
+	if y.pos >= len(y.b) {
+		return 0, io.EOF
+	}
+	n := y.sizes[y.calls%len(y.sizes)]
+	y.calls++
+	if n > len(p) {
+		n = len(p)
+	}
+	if n > len(y.b)-y.pos {
+		n = len(y.b) - y.pos
+	}
+	copy(p, y.b[y.pos:y.pos+n])
+	y.pos += n
+	return n, nil
+}
+
 var errInjected = errors.New("injected write failure")
 
 // failWriter accepts `budget` bytes in total, then fails (accepting a partial write first when partial is set).
@@ -762,6 +791,49 @@ func (e *Exec) doSerial(c *Call, ev *Event, targets *[]int) bool {
 			e.setSlot(c.Dst, roaring.New(), false)
 		}
 		*targets = []int{c.Dst}
+		return true
+	case "ConcLoad": // independent bitmaps decoded concurrently from independent plain io.Readers (pooled adapters, C12)
+		n := len(c.Xs)
+		datas := make([][]byte, n)
+		for i, x := range c.Xs {
+			b, err := e.bm(x).ToBytes()
+			if err != nil {
+				ev.Skip = true
+				return true
+			}
+			datas[i] = b
+		}
+		if c.V == 1 && len(datas[0]) > 1 { // a decode that fails first (a truncated stream from a plain reader)
+			roaring.New().ReadFrom(&yieldReader{b: datas[0][:len(datas[0])/2], sizes: []int{3}})
+		}
+		outs := make([]*roaring.Bitmap, n)
+		errs := make([]bool, n)
+		var wg sync.WaitGroup
+		for i := 0; i < n; i++ {
+			wg.Add(1)
+			go func(i int) {
+				defer wg.Done()
+				defer func() {
+					if r := recover(); r != nil {
+						errs[i] = true
+					}
+				}()
+				nb := roaring.New()
+				_, err := nb.ReadFrom(&yieldReader{b: datas[i], sizes: chunkings[(c.J+i)%len(chunkings)]})
+				errs[i] = err != nil
+				outs[i] = nb
+			}(i)
+		}
+		wg.Wait()
+		*targets = append([]int{}, c.Xs...)
+		for i := 0; i < n; i++ {
+			if outs[i] == nil || errs[i] {
+				outs[i] = roaring.New()
+			}
+			e.setSlot(4+i, outs[i], false)
+			*targets = append(*targets, 4+i)
+		}
+		ev.Ret = map[string]any{"errs": errs}
 		return true
 	case "Adopt": // a decoded (untrusted) bitmap placed in a slot by the fuzz driver; its content is what the raw view shows
 		*targets = []int{c.Dst}
